@@ -791,3 +791,400 @@ func checkResolveBeforeInspect(P *Program, prop string) []StructResult {
 	}
 	return out
 }
+
+// ---------------------------------------------------------------- immutable types (C02)
+//   //@ type Env immutable
+// Every store to a field of the type, anywhere in both packages, targets an object allocated in the same activation
+// (a fresh copy that nobody else can see yet), or the pointee of a parameter whose every actual argument, at every
+// call site, is such a fresh object. Published objects of the type are therefore never modified: an environment
+// handed out before a binding was added still denotes the same bindings afterwards.
+
+func init() { structuralChecks = append(structuralChecks, checkImmutableTypes) }
+
+func rootOfAddr(v ssa.Value) ssa.Value {
+	for {
+		switch x := v.(type) {
+		case *ssa.FieldAddr:
+			v = x.X
+		case *ssa.IndexAddr:
+			v = x.X
+		default:
+			return v
+		}
+	}
+}
+
+func checkImmutableTypes(P *Program, prop string) []StructResult {
+	if prop != "C02" {
+		return nil
+	}
+	var out []StructResult
+	for tname, attr := range P.TypeAttr {
+		if strings.TrimSpace(attr) != "immutable" {
+			continue
+		}
+		res := StructResult{Name: "immutable:" + tname, OK: true}
+		n := 0
+		var bad []string
+		// parameters through which fields of the type are stored
+		storesVia := map[*ssa.Parameter]bool{}
+		for _, fn := range P.allFuncs {
+			for _, b := range fn.Blocks {
+				for _, in := range b.Instrs {
+					st, ok := in.(*ssa.Store)
+					if !ok {
+						continue
+					}
+					fa, ok := st.Addr.(*ssa.FieldAddr)
+					if !ok {
+						continue
+					}
+					// the outermost struct the field chain starts in
+					root := rootOfAddr(st.Addr)
+					// does the chain pass through the immutable type?
+					touches := false
+					for cur := ssa.Value(fa); ; {
+						f, ok := cur.(*ssa.FieldAddr)
+						if !ok {
+							break
+						}
+						if pt, ok := f.X.Type().Underlying().(*types.Pointer); ok {
+							if nm, ok := pt.Elem().(*types.Named); ok && nm.Obj().Name() == tname {
+								touches = true
+							}
+						}
+						cur = f.X
+					}
+					if !touches {
+						continue
+					}
+					n++
+					switch r := root.(type) {
+					case *ssa.Alloc:
+						// a copy made in this activation
+					case *ssa.Parameter:
+						storesVia[r] = true
+					default:
+						bad = append(bad, fmt.Sprintf("%s stores into a %s it did not allocate (%s)", fnKey(fn), tname, posOf(fn, st.Pos())))
+					}
+				}
+			}
+		}
+		// every call site of a function that stores through a parameter passes a fresh object for it
+		for p := range storesVia {
+			callee := p.Parent()
+			idx := -1
+			for i, q := range callee.Params {
+				if q == p {
+					idx = i
+				}
+			}
+			for _, fn := range P.allFuncs {
+				for _, b := range fn.Blocks {
+					for _, in := range b.Instrs {
+						ci, ok := in.(ssa.CallInstruction)
+						if !ok || ci.Common().StaticCallee() != callee {
+							continue
+						}
+						if _, fresh := rootOfAddr(ci.Common().Args[idx]).(*ssa.Alloc); !fresh {
+							bad = append(bad, fmt.Sprintf("%s passes a %s it did not allocate to %s, which modifies it (%s)", fnKey(fn), tname, fnKey(callee), posOf(fn, in.Pos())))
+						}
+					}
+				}
+			}
+		}
+		if len(bad) > 0 {
+			res.OK, res.Detail = false, strings.Join(bad, "; ")
+		} else {
+			res.Detail = fmt.Sprintf("%d store(s) to fields of %s, all into objects allocated in the same activation (or into a fresh object passed by the only callers)", n, tname)
+		}
+		out = append(out, res)
+	}
+	return out
+}
+
+// ---------------------------------------------------------------- the environment of a failed unification is dead (C02)
+//   //@ func F / unify-result-checked
+// In F, the environment returned by Env.Unify / unify / unifyWithOccursCheck is used only where the accompanying
+// success flag is known to be true.
+
+func init() { structuralChecks = append(structuralChecks, checkUnifyResult) }
+
+func checkUnifyResult(P *Program, prop string) []StructResult {
+	var out []StructResult
+	for _, key := range P.FuncOrd {
+		d := P.Funcs[key]
+		if !hasProp(d.Props(), prop) || !d.Has("unify-result-checked") {
+			continue
+		}
+		fn := P.fnByKey[key]
+		res := StructResult{Name: key + ":unify-result-checked", OK: true}
+		if fn == nil {
+			res.OK, res.Detail = false, "no such function"
+			out = append(out, res)
+			continue
+		}
+		n := 0
+		for _, b := range fn.Blocks {
+			for _, in := range b.Instrs {
+				call, ok := in.(*ssa.Call)
+				if !ok {
+					continue
+				}
+				callee := call.Call.StaticCallee()
+				if callee == nil {
+					continue
+				}
+				switch fnKey(callee) {
+				case "engine.(*Env).Unify", "engine.(*Env).unify", "engine.(*Env).unifyWithOccursCheck":
+				default:
+					continue
+				}
+				n++
+				var envV, okV ssa.Value
+				for _, r := range *call.Referrers() {
+					if ex, ok := r.(*ssa.Extract); ok {
+						if ex.Index == 0 {
+							envV = ex
+						} else {
+							okV = ex
+						}
+					}
+				}
+				if envV == nil || envV.Referrers() == nil {
+					continue
+				}
+				for _, use := range *envV.Referrers() {
+					if _, isDbg := use.(*ssa.DebugRef); isDbg {
+						continue
+					}
+					if ret, isRet := use.(*ssa.Return); isRet && okV != nil {
+						// returning (env, ok) together hands the obligation to the caller
+						both := false
+						for _, r := range ret.Results {
+							if r == okV {
+								both = true
+							}
+						}
+						if both {
+							continue
+						}
+					}
+					if phi, isPhi := use.(*ssa.Phi); isPhi && okV != nil && pairedPhiChecked(phi, envV, okV, 0) {
+						continue
+					}
+					if stc, isStore := use.(*ssa.Store); isStore && okV != nil && stc.Val == envV {
+						if cell, isAlloc := stc.Addr.(*ssa.Alloc); isAlloc {
+							// the environment variable lives in a cell (it is captured by a closure): follow the
+							// control flow from the store and require a true test of the flag before any read
+							if bad := cellReadBeforeTest(fn, cell, stc, okV); bad == nil {
+								continue
+							} else {
+								res.OK = false
+								res.Detail += fmt.Sprintf("the environment stored at %s is read at %s without its success flag having been tested true; ", posOf(fn, stc.Pos()), posOf(fn, bad.Pos()))
+								continue
+							}
+						}
+					}
+					if okV == nil || !dominatedByTrue(okV, use.Block()) {
+						res.OK = false
+						res.Detail += fmt.Sprintf("the environment of a unification is used without its success flag being true (%s); ", posOf(fn, use.Pos()))
+					}
+				}
+			}
+		}
+		if res.OK {
+			res.Detail = fmt.Sprintf("%d unification(s), every use of the resulting environment is on the success branch", n)
+		}
+		out = append(out, res)
+	}
+	return out
+}
+
+// cellReadBeforeTest: forward data flow from the store `*cell = env` of a unification result. The state is the set of
+// SSA values known to equal the unification's success flag on the path walked so far (the flag itself, and phis that
+// received it along the edge taken). Control does not continue along the true edge of a branch on such a value; a
+// later store to the cell ends the path (that store is checked on its own). Any other use of the cell reached is
+// returned: a read of the environment of a unification whose success has not been established.
+func cellReadBeforeTest(fn *ssa.Function, cell *ssa.Alloc, start *ssa.Store, okV ssa.Value) ssa.Instruction {
+	type set map[ssa.Value]bool
+	state := map[*ssa.BasicBlock]set{}
+	usesCell := func(in ssa.Instruction) bool {
+		for _, op := range in.Operands(nil) {
+			if *op == ssa.Value(cell) {
+				return true
+			}
+		}
+		return false
+	}
+	// walk instructions of b from index i with the given set; returns a violating instruction or nil, and the
+	// successors to continue with
+	var work []*ssa.BasicBlock
+	walk := func(b *ssa.BasicBlock, from int, cur set) ssa.Instruction {
+		for _, in := range b.Instrs[from:] {
+			if _, isDbg := in.(*ssa.DebugRef); isDbg {
+				continue
+			}
+			if st, ok := in.(*ssa.Store); ok && st.Addr == ssa.Value(cell) {
+				return nil // overwritten: the path ends here
+			}
+			if usesCell(in) {
+				return in
+			}
+		}
+		succs := b.Succs
+		if iff, ok := b.Instrs[len(b.Instrs)-1].(*ssa.If); ok {
+			c := iff.Cond
+			if cur[c] {
+				succs = []*ssa.BasicBlock{b.Succs[1]}
+			} else if u, ok := c.(*ssa.UnOp); ok && u.Op == token.NOT && cur[u.X] {
+				succs = []*ssa.BasicBlock{b.Succs[0]}
+			}
+		}
+		for _, sblk := range succs {
+			idx := -1
+			for i, p := range sblk.Preds {
+				if p == b {
+					idx = i
+				}
+			}
+			nxt := set{}
+			for v := range cur {
+				if ph, ok := v.(*ssa.Phi); ok && ph.Block() == sblk {
+					continue
+				}
+				nxt[v] = true
+			}
+			for _, in := range sblk.Instrs {
+				ph, ok := in.(*ssa.Phi)
+				if !ok {
+					break
+				}
+				if idx >= 0 && cur[ph.Edges[idx]] {
+					nxt[ph] = true
+				}
+			}
+			if old, seen := state[sblk]; seen {
+				// meet: intersection
+				changed := false
+				for v := range old {
+					if !nxt[v] {
+						delete(old, v)
+						changed = true
+					}
+				}
+				if changed {
+					work = append(work, sblk)
+				}
+			} else {
+				state[sblk] = nxt
+				work = append(work, sblk)
+			}
+		}
+		return nil
+	}
+	startIdx := 0
+	for i, in := range start.Block().Instrs {
+		if in == ssa.Instruction(start) {
+			startIdx = i + 1
+		}
+	}
+	if bad := walk(start.Block(), startIdx, set{okV: true}); bad != nil {
+		return bad
+	}
+	for len(work) > 0 {
+		b := work[len(work)-1]
+		work = work[:len(work)-1]
+		cur := set{}
+		for v := range state[b] {
+			cur[v] = true
+		}
+		first := 0
+		for first < len(b.Instrs) {
+			if _, ok := b.Instrs[first].(*ssa.Phi); !ok {
+				break
+			}
+			first++
+		}
+		if bad := walk(b, first, cur); bad != nil {
+			return bad
+		}
+	}
+	return nil
+}
+
+// pairedPhiChecked: the environment flows into a phi together with its flag (same block, same incoming edges); every
+// use of the environment phi must then be under a true test of the flag phi (e.g. `for ok { ... env, ok = env.Unify(...) }`)
+func pairedPhiChecked(envPhi *ssa.Phi, envV, okV ssa.Value, depth int) bool {
+	return pairedPhiCheckedSeen(envPhi, envV, okV, map[*ssa.Phi]bool{})
+}
+
+func pairedPhiCheckedSeen(envPhi *ssa.Phi, envV, okV ssa.Value, seen map[*ssa.Phi]bool) bool {
+	if seen[envPhi] {
+		return true // already being checked (a cycle through the loop)
+	}
+	seen[envPhi] = true
+	var okPhi *ssa.Phi
+	for _, in := range envPhi.Block().Instrs {
+		p, ok := in.(*ssa.Phi)
+		if !ok {
+			break
+		}
+		match := true
+		for i, e := range envPhi.Edges {
+			if e == envV && p.Edges[i] != okV {
+				match = false
+			}
+		}
+		if match && p != envPhi && types.Identical(p.Type(), okV.Type()) {
+			okPhi = p
+			break
+		}
+	}
+	if okPhi == nil || envPhi.Referrers() == nil {
+		return false
+	}
+	for _, use := range *envPhi.Referrers() {
+		if _, isDbg := use.(*ssa.DebugRef); isDbg {
+			continue
+		}
+		if p2, isPhi := use.(*ssa.Phi); isPhi {
+			if pairedPhiCheckedSeen(p2, envPhi, okPhi, seen) {
+				continue
+			}
+			return false
+		}
+		if !dominatedByTrue(okPhi, use.Block()) {
+			return false
+		}
+	}
+	return true
+}
+
+// dominatedByTrue: block b is only reachable through the true edge of a branch on cond (or on a phi/negation-free copy of it)
+func dominatedByTrue(cond ssa.Value, b *ssa.BasicBlock) bool {
+	if cond.Referrers() == nil {
+		return false
+	}
+	for _, r := range *cond.Referrers() {
+		switch x := r.(type) {
+		case *ssa.If:
+			t := x.Block().Succs[0]
+			if t == b || (t.Dominates(b) && len(t.Preds) == 1) {
+				return true
+			}
+		case *ssa.UnOp:
+			if x.Op == token.NOT && x.Referrers() != nil {
+				for _, rr := range *x.Referrers() {
+					if iff, ok := rr.(*ssa.If); ok {
+						f := iff.Block().Succs[1]
+						if f == b || (f.Dominates(b) && len(f.Preds) == 1) {
+							return true
+						}
+					}
+				}
+			}
+		}
+	}
+	return false
+}
